@@ -39,6 +39,19 @@ def run(tier):
     for r, cases in res:
         chk.add_tlc(r)
         files += cases
+    # hybrid-reference histories (7.5.8.4): Prev-chained cross-reference TABLES whose updated objects live in object
+    # streams, reached through the section's XRefStm - "tables ... with updated objects stored ... inside object streams"
+    hruns = [("h", 30, 60, vlib.seed() + 77)] if tier == "quick" else [("h%d" % i, 60, 300, vlib.seed() * 41 + i) for i in range(4)]
+    with ThreadPoolExecutor(max_workers=4) as ex:
+        hres = list(ex.map(lambda a: c02.gen_files(w, a[0], a[1], a[2], a[3], 6, 3, cfg="Gen_File_hybrid.cfg"), hruns))
+    hybrid = []
+    for r, cases in hres:
+        chk.add_tlc(r)
+        hybrid += [f for f in cases if f.get("hybrid")]
+    if len(hybrid) < 10:
+        raise vlib.ToolError("vacuous: only %d hybrid-reference files generated" % len(hybrid))
+    chk.extra["hybrid_reference_files"] = len(hybrid)
+    files += hybrid
     multi = [f for f in files if f["nrevs"] >= 2]
     if len(multi) < len(files) // 4:
         raise vlib.ToolError("vacuous: only %d of %d generated files have >= 2 revisions" % (len(multi), len(files)))
